@@ -5,12 +5,12 @@
  /verif/seeded/<ID>-<variant>/ with the confirmation recorded in meta.json."""
 import json, os, subprocess, sys, shutil, re
 pid, var = sys.argv[1], sys.argv[2]
-wt = '/tmp/wt-%s' % pid
-src = '/tmp/seed-%s/%s' % (pid, var)
+wt = os.environ.get('SEED_WT', '/tmp/wt-%s' % pid)
+src = os.environ.get('SEED_SRC', '/tmp/seed-%s/%s' % (pid, var))
 env = dict(os.environ, GOFLAGS='-mod=mod', GOPROXY='off', GOSUMDB='off', GOTOOLCHAIN='local',
            PATH='/opt/veriftools/go1.26.8/bin:' + os.environ['PATH'])
 meta = json.load(open(src + '/meta.json'))
-demo_dir = meta['demo_dir'].strip('./')
+demo_dir = meta['demo_dir'].split()[0].strip('./').rstrip('/')
 demo_dst = os.path.join(wt, demo_dir, 'zz_seed_demo_test.go')
 def sh(cmd, **kw):
     return subprocess.run(cmd, shell=True, cwd=wt, env=env, capture_output=True, text=True, **kw)
